@@ -5,6 +5,7 @@ import (
 	"go/ast"
 	"go/token"
 	"go/types"
+	"regexp"
 	"strings"
 
 	"npverif/internal/core"
@@ -338,6 +339,7 @@ func DiffClassification(p *core.Program, r *core.Report, rule string) {
 		minfo := m.Pkg.TypesInfo
 		msig := m.Obj.Type().(*types.Signature)
 		mw := facts.NewWalker(minfo)
+		mw.Inline = true
 		okSide, okFlags := true, 0
 		mw.OnStmt = func(s ast.Stmt, f facts.Formula) {
 			as, ok := s.(*ast.AssignStmt)
@@ -531,44 +533,93 @@ func DiffMergeKey(p *core.Program, r *core.Report, rule string) {
 	mflag := msig.Params().At(0)
 	mw := facts.NewWalker(minfo)
 	bad := ""
-	nReads := 0
+	nReads, nEnds := 0, 0
+	// reads of the representative's connection: written in place, or in a helper the connection is handed to (then
+	// the helper's own path condition on the parameter that receives the flag decides which end may be read)
+	classify := func(method string, f facts.Formula, fa facts.Formula, where string) {
+		nReads++
+		switch method {
+		case "AllProtocolsAndPorts", "ProtocolsAndPorts":
+		case "Src":
+			nEnds++
+			if (fa == nil || !facts.Entails(f, fa)) && bad == "" {
+				bad = "the representative's source is read" + where + " although the source may be the merged IP end"
+			}
+		case "Dst":
+			nEnds++
+			if (fa == nil || !facts.Entails(f, facts.MkNot(fa))) && bad == "" {
+				bad = "the representative's destination is read" + where + " although the destination may be the merged IP end"
+			}
+		default:
+			if bad == "" {
+				bad = "attribute " + method + "() of the group's representative is read" + where + " but is not part of the grouping key"
+			}
+		}
+	}
+	repRe := regexp.MustCompile(`\[0\]\.\w+$`)
+	isRep := func(e ast.Expr) bool {
+		if _, isSel := ast.Unparen(e).(*ast.SelectorExpr); !isSel {
+			if _, isId := ast.Unparen(e).(*ast.Ident); !isId {
+				return false
+			}
+		}
+		t := minfo.TypeOf(e)
+		if t == nil || !strings.HasSuffix(t.String(), "connlist.Peer2PeerConnection") {
+			return false
+		}
+		return repRe.MatchString(Unfold(minfo, merge.Decl.Body, e))
+	}
 	mw.OnExpr = func(e ast.Expr, f facts.Formula) {
 		c, ok := e.(*ast.CallExpr)
 		if !ok {
 			return
 		}
-		se, ok := ast.Unparen(c.Fun).(*ast.SelectorExpr)
-		if !ok {
+		if se, isSe := ast.Unparen(c.Fun).(*ast.SelectorExpr); isSe && isRep(se.X) {
+			classify(se.Sel.Name, f, facts.Atom("b:"+mw.PathOfVar(mflag)), "")
 			return
 		}
-		inner, ok := ast.Unparen(se.X).(*ast.SelectorExpr) // group[0].firstConn
-		if !ok {
+		// handed to a module helper
+		fn := core.Callee(minfo, c)
+		hd := p.ByObj[fn]
+		if hd == nil {
 			return
 		}
-		ix, ok := ast.Unparen(inner.X).(*ast.IndexExpr)
-		if !ok {
-			return
-		}
-		if v, isC := core.ConstString(minfo, ix.Index); !isC || v != "0" {
-			return
-		}
-		nReads++
-		fa := facts.Atom("b:" + mw.PathOfVar(mflag))
-		switch se.Sel.Name {
-		case "AllProtocolsAndPorts", "ProtocolsAndPorts":
-		case "Src":
-			if !facts.Entails(f, fa) && bad == "" {
-				bad = "the representative's source is read although the source may be the merged IP end"
+		hsig := fn.Type().(*types.Signature)
+		var connParam, flagParam *types.Var
+		for k, a := range c.Args {
+			if k >= hsig.Params().Len() {
+				break
 			}
-		case "Dst":
-			if !facts.Entails(f, facts.Not{X: fa}) && bad == "" {
-				bad = "the representative's destination is read although the destination may be the merged IP end"
+			if isRep(a) {
+				connParam = hsig.Params().At(k)
 			}
-		default:
-			if bad == "" {
-				bad = "attribute " + se.Sel.Name + "() of the group's representative is read but is not part of the grouping key"
+			if id, isId := ast.Unparen(a).(*ast.Ident); isId && minfo.ObjectOf(id) == types.Object(mflag) {
+				flagParam = hsig.Params().At(k)
 			}
 		}
+		if connParam == nil {
+			return
+		}
+		hinfo := hd.Pkg.TypesInfo
+		hw := facts.NewWalker(hinfo)
+		hw.OnExpr = func(he ast.Expr, hf facts.Formula) {
+			hc, isC := he.(*ast.CallExpr)
+			if !isC {
+				return
+			}
+			hse, isSe := ast.Unparen(hc.Fun).(*ast.SelectorExpr)
+			if !isSe {
+				return
+			}
+			if id, isId := ast.Unparen(hse.X).(*ast.Ident); isId && hinfo.ObjectOf(id) == types.Object(connParam) {
+				var fa facts.Formula
+				if flagParam != nil {
+					fa = facts.Atom("b:" + hw.PathOfVar(flagParam))
+				}
+				classify(hse.Sel.Name, hf, fa, " in "+hd.Key())
+			}
+		}
+		hw.WalkBody(hd.Decl.Body, nil)
 	}
 	// mirror: update(..., true, X) with X built from firstConn, false from secondConn
 	mw.OnStmt = func(s ast.Stmt, f facts.Formula) {
@@ -598,7 +649,7 @@ func DiffMergeKey(p *core.Program, r *core.Report, rule string) {
 		}
 	}
 	mw.WalkBody(merge.Decl.Body, nil)
-	r.Check(bad == "" && nReads >= 8, rule, merge.Key()+": only key attributes are read from a group's representative, and sides are re-inserted as they were", p.Pos(merge.Decl.Pos()),
+	r.Check(bad == "" && nReads >= 4 && nEnds >= 2, rule, merge.Key()+": only key attributes are read from a group's representative, and sides are re-inserted as they were", p.Pos(merge.Decl.Pos()),
 		"reads the non-IP end and the two connections only; first side re-inserted under firstConn != nil with isFirst=true, second under secondConn != nil with false", bad)
 	r.Floor(rule, 5)
 }
